@@ -449,6 +449,27 @@ typename nth_channel_view_type<View>::type nth_channel_view(View const& src, int
     return nth_channel_view_type<View>::make(src,n);
 }
 
+namespace detail {
+
+template <typename... Index>
+inline std::size_t physical_channel_index(mp11::mp_list<Index...>, std::size_t semantic_index)
+{
+    std::size_t const table[] = {static_cast<std::size_t>(Index::value)...};
+    return table[semantic_index];
+}
+
+/// \brief Position in memory (the n of nth_channel_view) of the channel that is the k-th in the order of the color space
+///
+/// Two views of compatible color spaces but different layouts (rgb and bgr) correspond channel by channel
+/// through the semantic index, not through the position in memory.
+template <typename View>
+inline std::size_t physical_channel_index(std::size_t semantic_index)
+{
+    return physical_channel_index(typename channel_mapping_type<View>::type{}, semantic_index);
+}
+
+} // namespace detail
+
 /// \defgroup ImageViewTransformationsKthChannel kth_channel_view
 /// \ingroup ImageViewTransformations
 /// \brief single-channel (grayscale) view of the K-th channel of a given image_view. The channel index is a template parameter
